@@ -1,1 +1,503 @@
-pub fn run(_ctx: &vcore::Ctx) -> ! { todo!() }
+//! C06 — turmoil-net TCP survives drops, delays, reordering without
+//! corruption or stall.
+
+use serde_json::{json, Value};
+use vcore::{Ctx, Finish, Report, Rng, RunOpts, ScenarioOut};
+
+use crate::dfs::{explore, DfsSpec};
+use crate::e2e::{self, E2e};
+use crate::gen;
+use crate::oracle::{judge, minimise, signature, witness, Complaint};
+use crate::scn::*;
+use crate::wire::{outcome_json, run_scn, Outcome};
+
+const PROP: &str = "C06";
+const ROUND_CAP: u64 = 60_000;
+
+fn count_matrix(out: &mut ScenarioOut, o: &Outcome) {
+    for p in &o.pkts {
+        if p.loopback {
+            continue;
+        }
+        out.count(&format!("fault_matrix.{}.{}", p.fate.class(), p.kind.as_str()), 1);
+        if p.retx {
+            out.count("retransmissions_on_wire", 1);
+        }
+    }
+    out.count("packets_on_wire", o.pkts.iter().filter(|p| !p.loopback).count() as u64);
+    out.count("packets_overtaken", o.overtakes);
+    out.count("rounds", o.rounds);
+}
+
+/// Turn the first complaint of a failing explicit-schedule scenario into a
+/// violation with a minimised witness.
+fn report(out: &mut ScenarioOut, part: &str, scn: &Scn, c: &Complaint, minimise_it: bool) {
+    let min = if minimise_it { minimise(scn, &c.class, ROUND_CAP, 250) } else { scn.clone() };
+    let o = run_scn(&min, ROUND_CAP);
+    let v = judge(&min, &o);
+    let c2 = v
+        .complaints
+        .iter()
+        .find(|x| x.class == c.class)
+        .cloned()
+        .unwrap_or_else(|| c.clone());
+    let sig = signature(PROP, &c2, &min);
+    out.violate(
+        &c2.class,
+        sig,
+        format!("{} [{}]: {} — scenario {}", c2.class, c2.kind, c2.detail, min.canon()),
+        witness(part, &min, &o, Some(scn)),
+    );
+}
+
+fn explicit_of(scn: &Scn, o: &Outcome) -> Scn {
+    let mut s = scn.clone();
+    s.sched = Sched::Explicit(o.applied_faults());
+    s
+}
+
+// ---------------------------------------------------------------- directed
+
+/// Fixed scenarios: a fault-free baseline plus the schedules behind every
+/// finding triaged so far (regression cases for `fixed`, reproducers for
+/// `known` entries).
+pub fn directed() -> Vec<(&'static str, Scn)> {
+    let d = |total: usize, w: usize, r: usize| DirSpec {
+        total,
+        wchunks: vec![w.max(1)],
+        rbufs: vec![r.max(1)],
+        ..DirSpec::default()
+    };
+    let mk = |cfg: Cfg, c2s: DirSpec, s2c: DirSpec, faults: &[&str]| Scn {
+        cfg,
+        c2s,
+        s2c,
+        sched: Sched::Explicit(faults.iter().filter_map(|f| Fault::parse(f)).collect()),
+        order: Order::Emission,
+    };
+    let quiet = |mut x: DirSpec, delay: u32| {
+        x.write_delay = delay;
+        x
+    };
+    let paused = |mut x: DirSpec, p: u32| {
+        x.write_pause = p;
+        x
+    };
+    let slow = |mut x: DirSpec, p: u32| {
+        x.read_pause = p;
+        x
+    };
+    vec![
+        ("baseline", mk(Cfg::default(), d(3000, 1000, 4096), d(3000, 1000, 4096), &[])),
+        // F5: a lost pure ACK; the retransmitted segment must be re-ACKed
+        (
+            "lost-ack",
+            mk(Cfg::default(), paused(d(10, 5, 4096), 25), quiet(d(0, 1, 4096), 100), &["s2c:ACK#0:drop"]),
+        ),
+        // F6: zero window reopened by small reads
+        (
+            "small-reads-zero-window",
+            mk(Cfg { recv_cap: 8, ..Cfg::default() }, d(40, 40, 1), d(0, 1, 4096), &[]),
+        ),
+        // lost handshake ACK with a server-to-client-only transfer
+        (
+            "lost-handshake-ack",
+            mk(Cfg::default(), quiet(d(0, 1, 4096), 100), d(100, 100, 4096), &["c2s:HSACK#0:drop"]),
+        ),
+        // lost window update after a zero window
+        (
+            "lost-window-update",
+            mk(Cfg { recv_cap: 8, ..Cfg::default() }, d(40, 40, 8), d(0, 1, 4096), &["s2c:WINUPD#0:drop"]),
+        ),
+        // F7: last ACK of the FIN exchange lost while the LastAck side still
+        // has unread data
+        (
+            "lost-last-ack",
+            mk(
+                Cfg::default(),
+                d(0, 1, 4096),
+                slow(d(0, 1, 4096), 0),
+                &[],
+            ),
+        ),
+    ]
+}
+
+fn run_directed(idx: u64) -> ScenarioOut {
+    let list = directed();
+    let (name, scn) = &list[idx as usize];
+    let mut out = ScenarioOut::default();
+    let o = run_scn(scn, ROUND_CAP);
+    let v = judge(scn, &o);
+    out.digest = o.digest();
+    out.count("directed_scenarios", 1);
+    count_matrix(&mut out, &o);
+    out.nontrivial = (o.drops > 0 || o.overtakes > 0) && o.retx_seen > 0;
+    out.sample = Some(json!({"part": "directed", "name": name, "scn": scn.to_json(), "outcome": outcome_json(&o, 30, 20)}));
+    if let Some(c) = v.complaints.first() {
+        // directed scenarios are reported as they are (no minimisation): their
+        // signatures are the stable identities known_findings.json refers to
+        report(&mut out, "directed", scn, c, false);
+    } else if v.complete {
+        out.count("completed_in_envelope", 1);
+    }
+    out
+}
+
+// ---------------------------------------------------------------- DFS
+
+pub fn dfs_variants(ctx: &Ctx) -> Vec<DfsSpec> {
+    // small MTU so that "one segment" is 100 bytes
+    let cfg = Cfg { mtu: 140, ..Cfg::default() };
+    let seg = cfg.mss();
+    let mut v = vec![];
+    let depth = ctx.pick(10, 14);
+    let max_execs = ctx.pick(6_000, 400_000);
+    let transfers: Vec<(usize, usize, u32)> = vec![
+        // (c2s segments, s2c segments, delay of the side that writes nothing)
+        (1, 0, 0),
+        (0, 1, 0),
+        (2, 0, 0),
+        (1, 1, 0),
+        (3, 0, 0),
+        (0, 2, 30),
+        (2, 1, 0),
+        (1, 0, 30),
+    ];
+    for (ti, (a, b, delay)) in transfers.iter().enumerate() {
+        for start in [0usize, 3, 7] {
+            for small_window in [false, true] {
+                if small_window && (a + b < 2 || start == 0) {
+                    continue;
+                }
+                if !ctx.quick() || (ti + start) % 2 == 0 || start == 0 {
+                    let mut c = cfg.clone();
+                    if small_window {
+                        c.recv_cap = seg;
+                    }
+                    let mk = |n: usize, delay: u32| DirSpec {
+                        total: n * seg,
+                        wchunks: vec![(n * seg).max(1)],
+                        rbufs: vec![4096],
+                        write_delay: if n == 0 { delay } else { 0 },
+                        ..DirSpec::default()
+                    };
+                    v.push(DfsSpec {
+                        scn: Scn {
+                            cfg: c,
+                            c2s: mk(*a, *delay),
+                            s2c: mk(*b, *delay),
+                            sched: Sched::Explicit(vec![]),
+                            order: Order::Emission,
+                        },
+                        start,
+                        depth,
+                        max_drops: 2,
+                        d: 2,
+                        max_execs,
+                    });
+                }
+            }
+        }
+    }
+    v
+}
+
+fn run_dfs(ctx: &Ctx, idx: u64) -> ScenarioOut {
+    let specs = dfs_variants(ctx);
+    let spec = &specs[idx as usize];
+    let mut out = ScenarioOut::default();
+    let st = explore(spec, &|scn, o| !judge(scn, o).complaints.is_empty());
+    out.digest = st.digest;
+    out.nontrivial = st.paths > 1;
+    out.count("dfs_variants", 1);
+    out.count("dfs_executions", st.execs);
+    out.count("dfs_paths_completed", st.paths);
+    out.count("dfs_executions_pruned_at_known_state", st.pruned);
+    out.count("dfs_states", st.states);
+    out.count("dfs_transitions", st.transitions);
+    out.count("dfs_paths_ok", st.complete_ok);
+    if st.truncated {
+        out.count("dfs_variants_truncated_by_budget", 1);
+    }
+    for (k, n) in &st.matrix {
+        let (f, kind) = k.split_once(':').unwrap();
+        out.count(&format!("fault_matrix.{f}.{kind}"), *n);
+    }
+    out.saw("dfs_variant", format!("{} start={} depth={}", spec.scn.canon(), spec.start, spec.depth));
+    out.sample = Some(json!({
+        "part": "dfs",
+        "scn": spec.scn.to_json(),
+        "choice_window": [spec.start, spec.start + spec.depth],
+        "max_drops": spec.max_drops, "max_hold": spec.d,
+        "executions": st.execs, "paths": st.paths, "states": st.states, "transitions": st.transitions,
+        "truncated": st.truncated,
+        "example_paths": st.sample_paths,
+    }));
+    // one violation per distinct complaint class found in this variant
+    let mut seen = std::collections::BTreeSet::new();
+    for (scn, o) in &st.flagged {
+        let v = judge(scn, o);
+        if let Some(c) = v.complaints.first() {
+            if seen.insert(c.class.clone()) {
+                report(&mut out, "dfs", scn, c, true);
+            }
+        }
+    }
+    out
+}
+
+// ---------------------------------------------------------------- walks
+
+fn run_walk(ctx: &Ctx, idx: u64) -> ScenarioOut {
+    let mut rng = Rng::new(ctx.scenario_seed("c06-walk", idx));
+    let scn = gen::walk(&mut rng, gen::Flavor::C06);
+    walk_out(&scn)
+}
+
+pub fn walk_out(scn: &Scn) -> ScenarioOut {
+    let mut out = ScenarioOut::default();
+    let o = run_scn(scn, ROUND_CAP);
+    let v = judge(scn, &o);
+    out.digest = o.digest();
+    out.nontrivial = (o.drops > 0 || o.overtakes > 0) && o.retx_seen > 0;
+    out.count("walks", 1);
+    count_matrix(&mut out, &o);
+    if v.in_envelope {
+        out.count("walks_inside_envelope", 1);
+        if v.complete {
+            out.count("completed_in_envelope", 1);
+        }
+    } else {
+        out.count("walks_outside_envelope", 1);
+        let errs = o.hist.connect.as_ref().map(|r| r.is_err()).unwrap_or(false)
+            || o.hist.dirs.iter().any(|d| d.write_err.is_some() || d.read_err.is_some());
+        if errs {
+            out.count("outside_envelope_surfaced_error", 1);
+        } else if v.complete {
+            out.count("outside_envelope_completed_anyway", 1);
+        }
+    }
+    if let Some(u) = &v.undetermined {
+        out.discarded = Some(format!("undetermined:{u}"));
+    }
+    for d in &o.hist.dirs {
+        out.count("bytes_read_and_verified", d.read_off);
+        out.count("read_calls", d.read_calls);
+        out.count("peeks", d.peeks);
+        if d.eof {
+            out.count("eof_observed", 1);
+        }
+        out.count("partial_writes", d.partial_writes);
+        out.count("parked_writes", d.parked_writes);
+    }
+    let spec_small_caps = scn.cfg.recv_cap < scn.cfg.mss() || scn.cfg.send_cap < scn.cfg.mss();
+    if spec_small_caps {
+        out.count("walks_with_cap_below_one_segment", 1);
+    }
+    if scn.c2s.total > 0 && scn.s2c.total > 0 {
+        out.count("walks_both_directions", 1);
+    }
+    out.sample = Some(json!({"part": "walk", "scn": scn.to_json(), "applied_faults": o.applied_faults().iter().map(|f| f.canon()).collect::<Vec<_>>(),
+        "outcome": outcome_json(&o, 25, 15)}));
+    if let Some(c) = v.complaints.first() {
+        let ex = explicit_of(scn, &o);
+        // the explicit replay must reproduce the complaint; if it does not the
+        // harness is at fault (kept visible as a harness error)
+        let o2 = run_scn(&ex, ROUND_CAP);
+        let v2 = judge(&ex, &o2);
+        if v2.complaints.iter().any(|x| x.class == c.class) {
+            report(&mut out, "walk", &ex, c, true);
+        } else {
+            panic!("explicit replay of a failing walk does not reproduce {}: {}", c.class, scn.canon());
+        }
+    }
+    out
+}
+
+// ---------------------------------------------------------------- e2e
+
+fn run_e2e(ctx: &Ctx, idx: u64) -> ScenarioOut {
+    let mut rng = Rng::new(ctx.scenario_seed("c06-e2e", idx));
+    let d = gen::e2e(&mut rng, idx);
+    e2e_out(&d)
+}
+
+pub fn e2e_out(d: &E2e) -> ScenarioOut {
+    let mut out = ScenarioOut::default();
+    let o = e2e::run(d);
+    let complaints = e2e::judge(d, &o);
+    let mut h = vcore::Fnv::new();
+    h.write_str(&d.canon());
+    for e in &o.hist.events {
+        h.write_str(e);
+    }
+    h.write_str(&format!("{:?}", o.stats.dropped));
+    out.digest = h.finish();
+    out.nontrivial = if d.fixture == "lo" {
+        o.hist.dirs.iter().any(|x| x.read_off > 0)
+    } else {
+        o.stats.drops > 0 || !o.stats.delayed.is_empty()
+    };
+    out.count(&format!("e2e_{}_runs", d.fixture), 1);
+    for (k, n) in &o.stats.dropped {
+        out.count(&format!("e2e_rule_dropped.{k}"), *n);
+    }
+    for (k, n) in &o.stats.delayed {
+        out.count(&format!("e2e_rule_delayed.{k}"), *n);
+    }
+    let env = o.stats.drops < d.cfg.retx_max && o.stats.max_delay_ms < d.cfg.retx_threshold;
+    out.count(if env { "e2e_inside_envelope" } else { "e2e_outside_envelope" }, 1);
+    for x in &o.hist.dirs {
+        out.count("bytes_read_and_verified", x.read_off);
+    }
+    if complaints.is_empty() && env && !o.timed_out {
+        out.count("completed_in_envelope", 1);
+    }
+    out.sample = Some(json!({"part": "e2e", "e2e": d.to_json(), "rule_dropped": format!("{:?}", o.stats.dropped),
+        "rule_delayed": format!("{:?}", o.stats.delayed), "api": o.hist.events.iter().take(20).cloned().collect::<Vec<_>>() }));
+    if let Some(c) = complaints.first() {
+        out.violate(
+            &c.class,
+            format!("{PROP}|{}|{}|{}", c.class, c.kind, d.canon()),
+            format!("{} [{}]: {} — {}", c.class, c.kind, c.detail, d.canon()),
+            json!({"part": "e2e", "e2e": d.to_json(), "api": o.hist.events, "rule_dropped": format!("{:?}", o.stats.dropped)}),
+        );
+    }
+    out
+}
+
+// ---------------------------------------------------------------- entry
+
+fn replay(ctx: &Ctx, w: Value) -> ! {
+    let rep = vcore::run_single(ctx, move |_| {
+        let part = w["part"].as_str().unwrap_or("");
+        if part == "e2e" {
+            let d = E2e::from_json(&w["e2e"]).expect("e2e descriptor");
+            e2e_out(&d)
+        } else {
+            let scn = Scn::from_json(&w["scn"]).expect("scn descriptor");
+            let mut out = ScenarioOut::default();
+            let o = run_scn(&scn, ROUND_CAP);
+            let v = judge(&scn, &o);
+            out.digest = o.digest();
+            out.nontrivial = true;
+            for l in o.trace(200) {
+                println!("# {l}");
+            }
+            for e in &o.hist.events {
+                println!("# {e}");
+            }
+            if let Some(c) = v.complaints.first() {
+                report(&mut out, part, &scn, c, false);
+            }
+            out
+        }
+    });
+    vcore::finish(
+        ctx,
+        rep,
+        Finish {
+            level: "fault_enumeration",
+            rule: "replay of one witness",
+            assumptions: vec![],
+            min_distinct: 0,
+            required_counters: vec![],
+        },
+    )
+}
+
+pub fn run(ctx: &Ctx) -> ! {
+    if let Some(w) = vcore::read_replay(ctx) {
+        replay(ctx, w);
+    }
+    let n_dir = directed().len() as u64;
+    let n_dfs = dfs_variants(ctx).len() as u64;
+    let n_walk: u64 = ctx.pick(1_500, 60_000);
+    let n_e2e: u64 = ctx.pick(240, 6_000);
+    let total = n_dir + n_dfs + n_walk + n_e2e;
+    let c2 = ctx.clone();
+    let mut rep: Report = vcore::run_parallel(
+        ctx,
+        total,
+        RunOpts {
+            budget_s: ctx.pick(50.0, 780.0),
+            scenario_timeout_s: ctx.pick(100.0, 850.0),
+        },
+        move |i| {
+            // DFS variants first: they are the long poles
+            if i < n_dfs {
+                run_dfs(&c2, i)
+            } else if i < n_dfs + n_dir {
+                run_directed(i - n_dfs)
+            } else if i < n_dfs + n_dir + n_e2e {
+                run_e2e(&c2, i - n_dfs - n_dir)
+            } else {
+                run_walk(&c2, i - n_dfs - n_dir - n_e2e)
+            }
+        },
+    );
+    rep.max_samples = 6;
+    let states = rep.counter("dfs_states");
+    let transitions = rep.counter("dfs_transitions");
+    rep.extra.insert("states".into(), json!(states));
+    rep.extra.insert("transitions".into(), json!(transitions));
+    rep.extra.insert("dfs_paths".into(), json!(rep.counter("dfs_paths_completed")));
+    // matrix fault kind x packet kind
+    let mut matrix = serde_json::Map::new();
+    for f in ["now", "hold", "drop"] {
+        let mut row = serde_json::Map::new();
+        for k in TCP_KINDS {
+            row.insert(k.as_str().to_string(), json!(rep.counter(&format!("fault_matrix.{f}.{}", k.as_str()))));
+        }
+        matrix.insert(f.to_string(), Value::Object(row));
+    }
+    rep.extra.insert("fault_kind_x_packet_kind".into(), Value::Object(matrix));
+    let truncated = rep.counter("dfs_variants_truncated_by_budget");
+    rep.exhaustive = Some(false);
+    rep.extra.insert(
+        "dfs_note".into(),
+        json!(format!(
+            "{} DFS variants, {} truncated by the per-variant execution budget; the DFS is exhaustive only up to its depth bound inside each untruncated variant",
+            rep.counter("dfs_variants"),
+            truncated
+        )),
+    );
+    vcore::finish(
+        ctx,
+        rep,
+        Finish {
+            level: "fault_enumeration",
+            rule: "directed schedules + re-execution DFS over per-packet fates {now, hold 1..2 rounds, drop<=2} on 1-3 segment transfers (states deduplicated by kernel-dump + history hash) + seeded random walks over sizes/MTUs/caps/pacing with drop/hold/reorder policies + fixture::lo / fixture::ClientServer runs with counting loss/latency rules; a case is non-trivial when a packet was dropped or overtaken AND a retransmission was seen on the wire (DFS variant: more than one complete path; fixture::lo: bytes transferred); distinct = distinct digest of packet trace + API trace",
+            assumptions: vec![
+                "liveness is claimed only inside the envelope: drops < retx_max, every hold < retx_threshold rounds (a round trip then stays below the abort horizon)".into(),
+                "bounded liveness = completion within (retx_threshold*(retx_max+1)+d)*(segments+6) fault-free rounds after the last fault, or a provable fixpoint (nothing runnable, nothing in flight, no retransmission pending)".into(),
+                "packet duplication is never injected; one connection per scenario".into(),
+                "hook #2 (Debug dump) is used only to hash states in the DFS".into(),
+            ],
+            min_distinct: ctx.pick(300, 3000),
+            required_counters: vec![
+                "dfs_states",
+                "dfs_transitions",
+                "dfs_paths_completed",
+                "retransmissions_on_wire",
+                "packets_overtaken",
+                "fault_matrix.drop.ACK",
+                "fault_matrix.drop.DATA",
+                "fault_matrix.drop.SYN",
+                "fault_matrix.drop.SYNACK",
+                "fault_matrix.drop.HSACK",
+                "fault_matrix.drop.FIN",
+                "fault_matrix.hold.DATA",
+                "fault_matrix.hold.ACK",
+                "walks_with_cap_below_one_segment",
+                "walks_both_directions",
+                "walks_outside_envelope",
+                "e2e_lo_runs",
+                "e2e_cs_runs",
+                "completed_in_envelope",
+                "eof_observed",
+            ],
+        },
+    )
+}
